@@ -80,6 +80,7 @@ type Val struct {
 	Flds map[string]*Val // struct-typed values: per field
 	Key  string          // canonical identity of the value for nil-test refinement
 	Clos []*Closure
+	sigc string // cached signature (values are not mutated once published)
 }
 
 func (v *Val) clone() *Val {
@@ -107,6 +108,13 @@ func (v *Val) sig() string {
 	if v == nil {
 		return "-"
 	}
+	if v.sigc == "" {
+		v.sigc = v.sig0()
+	}
+	return v.sigc
+}
+
+func (v *Val) sig0() string {
 	var parts []string
 	for l := range v.Ptr {
 		parts = append(parts, l.String())
@@ -243,7 +251,15 @@ type Reached struct {
 	Obj  *Obj
 }
 
+type callCache struct {
+	epoch   int
+	results []*Val
+	out     *State
+}
+
 type analysis struct {
+	epoch   int
+	cache   map[string]*callCache
 	prog    *core.Program
 	objs    map[string]*Obj
 	weak    map[Loc]*Val
@@ -264,7 +280,7 @@ type envKey struct {
 // Analyze interprets entry with symbolic parameters.
 func Analyze(prog *core.Program, entry *ssa.Function) *Result {
 	a := &analysis{prog: prog, objs: map[string]*Obj{}, weak: map[Loc]*Val{}, env: map[envKey]*Val{},
-		ctxIDs: map[string]int{}, writes: map[string]bool{}}
+		ctxIDs: map[string]int{}, writes: map[string]bool{}, cache: map[string]*callCache{}}
 	res := &Result{Entry: entry, Weak: a.weak, Funcs: map[*ssa.Function]bool{}, an: a}
 	a.res = res
 	var args []*Val
@@ -281,9 +297,6 @@ func Analyze(prog *core.Program, entry *ssa.Function) *Result {
 	for pass := 0; pass < 40; pass++ {
 		a.changed = false
 		res.Returns = nil
-		res.Writes = nil
-		res.Escapes = nil
-		a.writes = map[string]bool{}
 		res.Final = nil
 		a.call(entry, args, fvs, 0, newState(), true)
 		if !a.changed {
@@ -291,6 +304,14 @@ func Analyze(prog *core.Program, entry *ssa.Function) *Result {
 		}
 	}
 	return res
+}
+
+func (a *analysis) touch() {
+	a.changed = true
+	a.epoch++
+	if len(a.cache) > 0 {
+		a.cache = map[string]*callCache{} // entries of an older epoch can never hit again
+	}
 }
 
 func (a *analysis) obj(kind ObjKind, id string) *Obj {
@@ -452,7 +473,7 @@ func (a *analysis) storeTyped(l Loc, t types.Type, v *Val, state *State, strong 
 	nv.Key = ""
 	if old == nil || old.sig() != nv.sig() {
 		a.weak[l] = nv
-		a.changed = true
+		a.touch()
 	}
 	if state != nil {
 		delete(state.strong, l)
@@ -475,14 +496,16 @@ func (a *analysis) setEnv(ctx int, v ssa.Value, val *Val) {
 	k := envKey{ctx, v}
 	old, had := a.env[k]
 	nv := val
-	if had {
-		// SSA values are assigned once per activation, but loops and re-interpretation revisit
-		// them: accumulate, except that a strictly flow-sensitive re-evaluation may replace.
-		nv = val
+	if had && old != nil && val != nil && old.sig() != val.sig() {
+		// in-states grow monotonically over sweeps, so accumulating loses nothing at the
+		// fixpoint and guarantees termination when a context is shared between call sites
+		nv = join(old, val)
+	} else if had && val == nil {
+		nv = old
 	}
 	if !had || old.sig() != nv.sig() {
 		a.env[k] = nv
-		a.changed = true
+		a.touch()
 	}
 }
 
@@ -564,6 +587,26 @@ func (a *analysis) call(fn *ssa.Function, args []*Val, fvs []*Val, ctx int, st *
 	a.depth++
 	defer func() { a.depth-- }()
 	a.res.Funcs[fn] = true
+	var ckey string
+	startEpoch := a.epoch
+	if !isEntry {
+		var sb strings.Builder
+		fmt.Fprintf(&sb, "%d|", ctx)
+		for _, v := range args {
+			sb.WriteString(v.sig())
+			sb.WriteByte('|')
+		}
+		for _, v := range fvs {
+			sb.WriteString(v.sig())
+			sb.WriteByte('|')
+		}
+		sb.WriteString(st.sig())
+		ckey = sb.String()
+		if c, ok := a.cache[ckey]; ok && c.epoch == a.epoch {
+			return c.results, c.out
+		}
+		defer func() {}()
+	}
 	for i, p := range fn.Params {
 		if i < len(args) {
 			a.setEnv(ctx, p, args[i])
@@ -645,6 +688,9 @@ func (a *analysis) call(fn *ssa.Function, args []*Val, fvs []*Val, ctx int, st *
 	if isEntry {
 		a.res.Final = outState
 	}
+	if ckey != "" && a.epoch == startEpoch {
+		a.cache[ckey] = &callCache{epoch: a.epoch, results: results, out: outState}
+	}
 	return results, outState
 }
 
@@ -680,7 +726,7 @@ func (a *analysis) weakJoin(l Loc, v *Val) {
 	}
 	if old == nil || old.sig() != nv.sig() {
 		a.weak[l] = nv
-		a.changed = true
+		a.touch()
 	}
 }
 
@@ -859,7 +905,6 @@ func (a *analysis) step(ctx int, fn *ssa.Function, fvs []*Val, inst ssa.Instruct
 		if isStrongObj(o) {
 			// fresh zero cell: strong nil for each reference field
 			elem := x.Type().Underlying().(*types.Pointer).Elem()
-			s = s.clone()
 			a.storeTyped(Loc{o, ""}, elem, a.zeroOf(elem), s, true)
 		}
 	case *ssa.MakeSlice, *ssa.MakeMap, *ssa.MakeChan:
@@ -980,13 +1025,12 @@ func (a *analysis) step(ctx int, fn *ssa.Function, fvs []*Val, inst ssa.Instruct
 		t := x.Val.Type()
 		a.recordWrite(fn, x, "store", addr)
 		targets := a.addrTargets(addr)
-		s = s.clone()
 		for _, l := range targets {
 			a.storeAt(l, x.Addr, t, val, s, len(targets) == 1)
 		}
 	case *ssa.MapUpdate:
 		if v := get(x.Value); v != nil {
-			a.res.Escapes = append(a.res.Escapes, EscapeEvent{Instr: x, Fn: fn, Val: v, To: "map"})
+			a.addEscape(EscapeEvent{Instr: x, Fn: fn, Val: v, To: "map"})
 		}
 	case *ssa.MakeClosure:
 		c := &Closure{Fn: x.Fn.(*ssa.Function)}
